@@ -297,7 +297,7 @@ for _perf in (False, True):
         + [("loop-entry-fact#%d" % i, f) for i, f in enumerate(_LOOP_FACTS)],
         ensures=_LOOP_ENSURES,
         raises="none",
-        loops={3: {"inv": _LOOP_FACTS}, 4: {"inv": _COMMON_INV + ["u in dist and u in csr and not stop_relax"]}},
+        loops={3: {"inv": _LOOP_FACTS}, 4: {"inv": _COMMON_INV + ["u in dist and u in csr"]}},
         locals=_LOCALS,
         feas_timeout_ms=60, named_seqs=True,
         unreachable_ok=(_DEAD_LAYER_CHECK if _perf else ["local_t1_dedup_hits_total += 1", "ev = len(pq) - effective_frontier_cap",
